@@ -2,11 +2,11 @@ CONSTANTS
   RemoveExt = TRUE
   CT = FALSE
   TwoKeys = FALSE
-  Wl2 = TRUE
-  MaxInit = 0
+  Wl2 = FALSE
+  MaxInit = 1
   EarlyForget = FALSE
   SwallowList = FALSE
-  Flags = {"RouteReplace", "RouteDel", "LinkList"}
+  Flags = {"RouteList", "LinkByName", "LinkByNameNotFound", "NewNetlink", "RouteListEINTR"}
   MaxEnv = 2
   MaxFail = 1
 INIT Init
